@@ -234,8 +234,11 @@ static int real_main(int argc, char** argv)
             for (auto& v : out.viol) classes.insert(v.cls());
             for (auto& cls : classes)
             {
-                // gate (i): the same seed re-executed in this process gives the same hash and class
-                RunOutput again = run_plan(p, ro);
+                // gate (i): the same seed re-executed in this process gives the same hash and class.
+                // A data race on once-only state (racy lazy initialisation) cannot recur in the same process: for
+                // that class the confirmation is the fresh-process replay done by the driver, and nothing is shrunk
+                const bool once_only = (cls == "C20:data-race");
+                RunOutput again = once_only ? out : run_plan(p, ro);
                 if (again.event_hash != out.event_hash || !again.has_class(cls))
                 {
                     engine_errors++;
@@ -255,11 +258,11 @@ static int real_main(int argc, char** argv)
                         for (auto& kv : v.params.o) failing.params.set(kv.first, kv.second);
                         break;
                     }
-                Plan small = (no_shrink || nviol >= 2) ? failing : shrink_plan(failing, cls, ro, 200, &used);
+                Plan small = (no_shrink || nviol >= 2 || once_only) ? failing : shrink_plan(failing, cls, ro, 200, &used);
                 // what is verified is what the replay file will contain: the plan after a JSON round trip
                 auto roundtrip = [](const Plan& q) { return Plan::from_json(Json::parse(q.to_json().dump())); };
                 small = roundtrip(small);
-                RunOutput sout = run_plan(small, ro);
+                RunOutput sout = once_only ? out : run_plan(small, ro);
                 if (!sout.has_class(cls)) { small = roundtrip(failing); sout = run_plan(small, ro); }
                 if (!sout.has_class(cls))
                 {
